@@ -1,5 +1,6 @@
--- driver for C11 (stub)
-def step (_line : String) : String := "bad-op"
+-- driver gm_c11: path components (UPath / Glob / Rewrite), see GrcovModel/Drv/C11.lean
+import GrcovModel.Drv.C11
+open Grcov.Drv.C11
 
 partial def loop (h : IO.FS.Stream) (out : IO.FS.Stream) : IO Unit := do
   let line ← h.getLine
